@@ -54,6 +54,8 @@ func hasherSet() []merklize.Hasher {
 		hashers.Default(),
 		hashers.Mod{P: new(big.Int).Set(constants.Q), SaltBytes: []byte("salt:"), Name: "salted"},
 		hashers.Mod{P: big.NewInt(2147483647), Name: "mod2^31-1"},
+		emptyNilHasher{}, // hiEmptyNil: HashBytes("") = (nil, nil)
+		emptyBigHasher{}, // hiEmptyBig: HashBytes("") = Q + 5
 	}
 }
 
@@ -152,7 +154,13 @@ func (d *drv) docCase(doc *docgen.Doc, hi int) {
 		merklize.WithMerkleTree(merklize.MerkleTreeSQLAdapter(mt)))
 	d.rep.Count("merklize:" + mo.Class)
 	if mo.Class == "panic" || mo.Class == "hang" {
-		d.rep.Fail("c01-"+mo.Class, "MerklizeJSONLD: "+mo.Msg, input)
+		class := "c01-" + mo.Class
+		if mo.Class == "panic" && hi == hiEmptyNil && strings.HasPrefix(doc.Why, "empty") {
+			// defect candidate: a custom hasher whose HashBytes("") is (nil, nil) makes tree insertion
+			// dereference a nil value hash (fix 58805e9 guards only PoseidonHasher)
+			class = "c01-nil-hash-panic"
+		}
+		d.rep.Fail(class, "MerklizeJSONLD: "+mo.Msg, input)
 		return
 	}
 	// whatever the document: a merklizer that was returned accounts for every literal/IRI quad
@@ -540,6 +548,9 @@ func Run(cfg *common.Config) (*common.Report, error) {
 	}
 	for i := 0; i < cfg.Pick(30, 800); i++ {
 		d.docCase(d.dupPathDoc(), cfg.Rng.Intn(len(d.hs)))
+	}
+	for i := 0; i < cfg.Pick(36, 900); i++ {
+		d.docCase(d.emptyStringDoc(), []int{0, hiEmptyNil, hiEmptyBig, 1}[i%4])
 	}
 	for i := 0; i < cfg.Pick(120, 3000); i++ {
 		ds, kind := d.rawDataset()
